@@ -71,6 +71,8 @@ type vConn struct {
 	// readDelay makes every successful read take this long (virtual): a slow listener
 	readDelay time.Duration
 	readTimes []int64 // virtual instants of the ReadFrom calls
+	// onRead, if set, is called (outside the lock) at the start of the n-th ReadFrom call (n from 1)
+	onRead func(n int)
 }
 
 type vEvent struct {
@@ -95,7 +97,11 @@ func (c *vConn) ReadFrom() (ndp.Message, *ipv6.ControlMessage, netip.Addr, error
 	dc := c.deadlineC
 	rd := c.readDelay
 	c.readTimes = append(c.readTimes, vNow())
+	nread, onRead := len(c.readTimes), c.onRead
 	c.mu.Unlock()
+	if onRead != nil {
+		onRead(nread)
+	}
 	if rd > 0 {
 		time.Sleep(rd)
 	}
